@@ -54,7 +54,9 @@ Record state := mkState {
   st_next : oid
 }.
 (* fields below 12 are class traits / container pseudo-fields (always there); 12.. are added by add_trait *)
-Definition init_traits : traits := fun _ f => f <? 12.
+Definition init_traits : traits := fun _ f => negb (Nat.eqb f 12 || Nat.eqb f 13).
+(* 14 = groups, a Dict(Str, List(Instance)) trait: its dict object has pseudo-field 17, the lists stored in it
+   are container objects with pseudo-field 6 (nested containers) *)
 Definition init (npool : nat) : state := mkState init_traits (fun _ _ => []) [] [] npool.
 
 Definition items_field (f : fname) : fname := f + 3.     (* kids -> 6, m -> 7, s -> 8 *)
@@ -78,7 +80,11 @@ Inductive op :=
                                                         del, set add / remove, all are instances) *)
 | Probe (o : oid)                                    (* o.value = a fresh integer *)
 | AddTrait (o : oid) (f : fname)                     (* o.add_trait(name_f, Instance(HasTraits)) *)
-| DelCont (o : oid) (f : fname).                     (* del o.f for a List/Dict/Set trait that has a value *)
+| DelCont (o : oid) (f : fname)                      (* del o.f for a List/Dict/Set trait that has a value *)
+| SpliceCont (c : oid) (f fi : fname) (i n : nat) (items : list oid).
+                                                     (* nested containers: d[key] = [items] on the dict object c of a
+                                                        Dict(Str, List(...)) trait: the validated value is a NEW list
+                                                        object (pseudo-field fi) that replaces n (0 or 1) values at i *)
 
 (* what one operation shows *)
 Record obs := mkObs {
@@ -294,6 +300,12 @@ Definition step (st : state) (o : op) : state * obs :=
       | _ => change st c f (splice olds i n vs) removed vs false true
       end
   | Probe x => change st x 0 (h x 0) [] [] false false
+  | SpliceCont c f fi i n items =>
+      let c' := st_next st in
+      let olds := h c f in
+      let st1 := mkState t (upd h c' fi items) (st_hooks st) (st_regs st) (S c') in
+      let '(st2, ob) := change st1 c f (splice olds i n [c']) (spliced_out olds i n) [c'] false true in
+      (st2, mkObs (ob_out ob) (ob_calls ob) ((c', fi, items) :: ob_delta ob))
   | DelCont x f =>
       (* ctraits.c setattr_trait l.2392-2437 (value == NULL): the dict entry is deleted and, when the trait
          has notifiers, the default is obtained with traito->getattr, i.e. getattr_trait, which stores it AND
@@ -347,6 +359,10 @@ Definition op_hyp (st : state) (o : op) : bool :=
   let rs := st_regs st in
   match o with
   | DelCont _ _ => false      (* outside the theorems: the double notification breaks the invariant *)
+  | SpliceCont c f fi i n items =>
+      let c' := st_next st in
+      negb (Nat.eqb f fi) && fresh_b t h rs c' fi
+      && edge_acyclic_b t (upd h c' fi items) rs c f (splice (h c f) i n [c'])
   | AddTrait x f =>          (* a new trait has no value yet; nodes naming it carry the trait_added graph *)
       (* re-adding an existing trait keeps its notifiers (has_traits.py add_trait l.2843-2848): nothing changes *)
       t x f || (is_nil_b (h x f) && forallb (fun r : reg => wf_dyn f (snd r)) rs)
@@ -387,5 +403,6 @@ Definition notified (st : state) (o : op) : option (oid * fname) :=
   | Probe x => Some (x, 0)
   | AddTrait x f => if st_traits st x f then None else Some (x, TA)
   | DelCont x f => None
+  | SpliceCont c f _ _ _ _ => Some (c, f)
   end.
 
